@@ -237,7 +237,7 @@ def check(args):
                 "rule": "one evaluation = one decoder call (XmlParser with the lxml or the native handler, JsonParser, DictDecoder) on a stored valid pool document after an explicit "
                 "sequence of 1-3 faults (storage: bit flip, overwrite, lost/duplicated/zeroed/garbage range, concatenation, random bytes, inserted markup; delivery: early EOF and a seeded "
                 "short-read schedule; structural: element delete/duplicate/retag/reorder/move, value and attribute corruption, children in simple content, bad xsi:type/xsi:nil, undeclared prefix, "
-                "wrong root, duplicate attribute, hostile prolog; JSON: key delete/rename/add, junk values, list wrap/unwrap). distinct_nontrivial = distinct (decoder, document, config, fault list) "
+                "wrong root, duplicate attribute, hostile prolog, size faults: an element duplicated 20-150 times, nested into itself 4-40 deep, long text, 10-200 extra attributes; JSON: key delete/rename/add, junk values, list wrap/unwrap/grow, nested values). distinct_nontrivial = distinct (decoder, document, config, fault list) "
                 "whose faults changed the delivered input and whose outcome is not the fault-free one (an instance).",
                 "samples": samples,
                 "exhaustive": False,
@@ -248,7 +248,7 @@ def check(args):
                 "faults_fired": dict(sorted(s["fired"].items())),
                 "simulated_time": {"unit": "function entries + jumps in xsdata code (sys.monitoring)", "total": s["steps"]},
                 "max_step_ratio_vs_valid_document": round(s["max_ratio"], 2),
-                "step_budget": "20 x steps(valid document) + 20000",
+                "step_budget": "20 x steps(valid document) x max(1, delivered size / valid size) + 20000",
                 "not_wellformed_inputs": s["wf_rejects"],
                 "native_handler_rejected_not_wellformed": s["native_rejected_malformed"],
                 "documents": {"xml": len(c15.Store.xml), "json": len(c15.Store.json)},
